@@ -734,6 +734,17 @@ func c04Whitelists(r *ev.Run, g *rng.R, caseID string) {
 			})
 			defer cf()
 			dst := v.LocalAddrs()[0]
+			// several messages and asks from the rejected peer back to back: one pending Receive / ServeAsk call sees them all
+			for k := 0; k < 4; k++ {
+				tctx, tcf := context.WithTimeout(ctx, 150*time.Millisecond)
+				rj.Tell(tctx, dst, p2p.IOVec{[]byte(fmt.Sprintf("rejected-burst-%d", k))})
+				tcf()
+			}
+			for k := 0; k < 4; k++ {
+				tctx, tcf := context.WithTimeout(ctx, 150*time.Millisecond)
+				rj.Ask(tctx, make([]byte, 8), dst, p2p.IOVec{[]byte(fmt.Sprintf("rejected-ask-burst-%d", k))})
+				tcf()
+			}
 			for i := 0; i < 3; i++ {
 				tctx, tcf := context.WithTimeout(ctx, 500*time.Millisecond)
 				rj.Tell(tctx, dst, p2p.IOVec{[]byte(fmt.Sprintf("rejected-%d", i))})
@@ -767,6 +778,17 @@ func c04Whitelists(r *ev.Run, g *rng.R, caseID string) {
 			})
 			defer cf()
 			dst := v.LocalAddrs()[0]
+			// several messages and asks from the rejected peer back to back: one pending Receive / ServeAsk call sees them all
+			for k := 0; k < 4; k++ {
+				tctx, tcf := context.WithTimeout(ctx, 150*time.Millisecond)
+				rj.Tell(tctx, dst, p2p.IOVec{[]byte(fmt.Sprintf("rejected-burst-%d", k))})
+				tcf()
+			}
+			for k := 0; k < 4; k++ {
+				tctx, tcf := context.WithTimeout(ctx, 150*time.Millisecond)
+				rj.Ask(tctx, make([]byte, 8), dst, p2p.IOVec{[]byte(fmt.Sprintf("rejected-ask-burst-%d", k))})
+				tcf()
+			}
 			for i := 0; i < 5; i++ {
 				tctx, tcf := context.WithTimeout(ctx, 200*time.Millisecond)
 				rj.Tell(tctx, dst, p2p.IOVec{[]byte(fmt.Sprintf("rejected-%d", i))})
